@@ -260,12 +260,21 @@ class SerializationMethodVisitor(
                     fallback,
                 )
         else:
+
+            def typed_dict_field(tp: AnyType) -> Optional[str]:
+                if is_typed_dict(get_origin_or_type2(tp)):
+                    for field in object_fields(tp, serialization=True).values():
+                        if field.alias == discriminator.alias:
+                            return field.name
+                return None
+
             alternatives = [
                 DiscriminatedAlternative(
                     expected_class(tp),
                     self.visit(tp),
                     self.aliaser(discriminator.alias),
                     key,
+                    typed_dict_field(tp),
                 )
                 for key, tp in discriminator.get_mapping(types).items()
             ]
